@@ -137,7 +137,7 @@ func sysProp(c Case, x *h.Ctx) *h.Violation {
 		return h.V("iofault/system/hang", "the child did not finish within 30 s after the injected failure %s (deadlock?)", faultDesc(c.Sys))
 	}
 	for _, ln := range strings.Split(out.String(), "\n") {
-		if strings.HasPrefix(ln, "strace: ") {
+		if strings.HasPrefix(ln, "strace: ") && !strings.Contains(ln, "exiting, ptrace_syscall_info") { // (that one is a notice about a thread that went away inside a call, e.g. at execve)
 			panic(h.Infra{Msg: "the tracer failed: " + ln})
 		}
 	}
